@@ -33,15 +33,18 @@ ParsedDefault(cfg, p) == cfg.edd /\ p.def \notin {"absent", "str_empty"}
 ZeroOf(t) == CASE t = "int" -> "int_zero" [] t = "float" -> "zero_float" [] t = "str" -> "str_empty"
                [] t = "bool" -> "bool_F" [] OTHER -> "None"
 
-AsBuiltP(en, cfg, p) ==
+\* `after` = some earlier parameter carries a parsed default (Google/NumPy then force a default on every later entry)
+AsBuiltPk(en, cfg, p, after) ==
   LET e0 == NormP(cfg, p)
       e1 == IF "none_default_as_str" \in en /\ cfg.edd /\ p.def = "None"
             THEN [e0 EXCEPT !.def = "str_paren_None", !.typs = IF Written(cfg, p) THEN {p.typ} ELSE {"str"}]
             ELSE e0
       e2 == IF "empty_str_default_lost" \in en /\ cfg.edd /\ p.def = "str_empty"
-            THEN [e1 EXCEPT !.def = "absent", !.doc = "residue"]
+            THEN [e1 EXCEPT !.def = IF after /\ cfg.style \in {"google", "numpydoc"} THEN ZeroOf(p.typ) ELSE "absent",
+                            !.doc = "residue"]
             ELSE e1
   IN e2
+AsBuiltP(en, cfg, p) == AsBuiltPk(en, cfg, p, FALSE)
 FiredP(en, cfg, p) == {d \in en : \/ (d = "none_default_as_str" /\ cfg.edd /\ p.def = "None")
                                    \/ (d = "empty_str_default_lost" /\ cfg.edd /\ p.def = "str_empty")}
 
@@ -62,7 +65,8 @@ AsBuilt(en, cfg, i) ==
                \cup (IF forced THEN {"gn_return_default_forced"} ELSE {})
                \cup (IF retOnly THEN {"gn_return_only_mangled"} ELSE {})
   IN [out |-> [raises |-> "no", wild |-> wildNp \/ wildCode, doc |-> i.doc,
-               params |-> [k \in 1..Len(i.params) |-> AsBuiltP(en, cfg, i.params[k])],
+               params |-> [k \in 1..Len(i.params) |->
+                             AsBuiltPk(en, cfg, i.params[k], \E j \in 1..(k - 1) : ParsedDefault(cfg, i.params[j]))],
                ret |-> ret1],
       fired |-> fired]
 
